@@ -57,6 +57,8 @@ def run_cell(args):
     ndiv = 0
     stop_cell = False
     cell_seconds = getattr(mod, "CELL_SECONDS", 240)
+    if opts.get("tier") == "thorough":
+        cell_seconds = getattr(mod, "CELL_SECONDS_THOROUGH", 4 * cell_seconds)
     try:
         for rec in eng.explore(fn, max_paths=getattr(mod, "MAX_PATHS", 200000)):
             if stop_cell:
@@ -216,7 +218,7 @@ def main(argv=None):
     cells = mod.cells(a.tier, seed)
     if a.cells:
         cells = [c for c in cells if a.cells in json.dumps(c)]
-    opts = {}
+    opts = {"tier": a.tier}
     results = []
     if a.jobs <= 1:
         _winit(hname)
